@@ -32,9 +32,10 @@ import (
 // ---- case descriptors ----------------------------------------------------------------------------------
 
 type entry struct {
-	Kind   string `json:"kind"`           // tcp | tcp+tls | ws | udp
-	Manner string `json:"manner"`         // good | plain | refused | silent | silent-inner | hs-400 | hs-garbage | hs-close
-	Host   string `json:"host,omitempty"` // "" | localhost | ip: spelling of the host in the upstream URL; a real endpoint's certificate is valid for that spelling only
+	Kind   string `json:"kind"`             // tcp | tcp+tls | ws | wss (web-socket behind a TLS listener) | udp
+	Scheme string `json:"scheme,omitempty"` // how the upstream URL spells the scheme; "" = the kind's default (ws: http, wss: https, udp: udp), else ws | wss | udp4
+	Manner string `json:"manner"`           // good | plain | refused | silent | silent-inner | hs-400 | hs-garbage | hs-close
+	Host   string `json:"host,omitempty"`   // "" | localhost | ip: spelling of the host in the upstream URL; a real endpoint's certificate is valid for that spelling only
 }
 
 // anyCase is the replayable descriptor of every kind of C16 case (Part selects which fields matter).
@@ -44,11 +45,12 @@ type anyCase struct {
 	Forward string  `json:"forward,omitempty"` // none | reachable | refused
 	End     string  `json:"end,omitempty"`     // forward reachable: how the served connection ends: "" (orderly) | target-reset | app-abort
 	Secure  bool    `json:"secure"`
-	Kind    string  `json:"kind,omitempty"`  // reuse, loss
-	M       int     `json:"m,omitempty"`     // reuse
-	How     string  `json:"how,omitempty"`   // loss: cut-fin | cut-rst | server-restart | server-restart-attempt-while-down | server-gone | black-hole
-	When    string  `json:"when,omitempty"`  // loss: idle | mid-transfer | during-open
-	Burst   int     `json:"burst,omitempty"` // loss: that many local connections at once after the loss (0 = one)
+	Kind    string  `json:"kind,omitempty"`   // reuse, loss
+	Scheme  string  `json:"scheme,omitempty"` // reuse, loss: spelling of the scheme in the upstream URL ("" = the kind's default)
+	M       int     `json:"m,omitempty"`      // reuse
+	How     string  `json:"how,omitempty"`    // loss: cut-fin | cut-rst | server-restart | server-restart-attempt-while-down | server-gone | black-hole
+	When    string  `json:"when,omitempty"`   // loss: idle | mid-transfer | during-open
+	Burst   int     `json:"burst,omitempty"`  // loss: that many local connections at once after the loss (0 = one)
 	Probe   bool    `json:"probe_recovery,omitempty"`
 	Hold    int     `json:"hold_seconds_after_reconnect,omitempty"` // loss: the connection served by the new session is kept that long, then used again
 	Seed    int64   `json:"seed"`
@@ -152,13 +154,14 @@ func build(entries []entry, forward string, secure bool) (*scenario, error) {
 			name = fmt.Sprintf("E%d", i)
 			ep, err = e2e.NewC16EndpointHost(en.Kind, name, en.Manner == "good", en.Host)
 			if err == nil {
+				ep.Scheme = en.Scheme
 				s.targets[name] = ep.Target
 				urls = append(urls, ep.URL())
 			}
 		} else {
 			sc, err = e2e.NewC16Scripted(en.Kind, en.Manner)
 			if err == nil {
-				sc.Host = en.Host
+				sc.Host, sc.Scheme = en.Host, en.Scheme
 				urls = append(urls, sc.URL())
 			}
 		}
@@ -377,6 +380,14 @@ func runList(rec *vcommon.Rec, c *anyCase) (stalled bool) {
 		return false
 	}
 	defer func() { c.hold(); s.close() }()
+	// the sessions the real servers of this process accept while the case runs, as the SERVERS see them (secured or
+	// not); only where cases run one after the other (the event log is process-wide)
+	watchSessions := c.judged == nil
+	if watchSessions {
+		verifhook.Events()
+		verifhook.Record(true)
+		defer func() { verifhook.Record(false); verifhook.Events() }()
+	}
 	wait := stdWait
 	if c.Part == "silent" {
 		wait = func(d <-chan struct{}) e2e.Outcome { return e2e.C16WaitLocal(d, s.progress, silentWindow) }
@@ -435,8 +446,25 @@ func runList(rec *vcommon.Rec, c *anyCase) (stalled bool) {
 		obs["forward_target_accepts"] = s.fwd.AcceptCount()
 	}
 
+	securedSessions, sessions := -1, 0
+	if watchSessions {
+		securedSessions = 0
+		var seen []string
+		for _, ev := range verifhook.Events() {
+			if ev.Kind != "server.session" || len(ev.KV) < 2 {
+				continue
+			}
+			sessions++
+			if sec, _ := ev.KV[0].(bool); sec {
+				securedSessions++
+			}
+			seen = append(seen, fmt.Sprintf("secure=%v tech=%v", ev.KV[0], ev.KV[1]))
+		}
+		obs["sessions_accepted_by_the_servers(as the server sees them)"] = seen
+	}
 	for _, e := range c.Entries {
 		rec.Seen("entry(kind,manner)", e.Kind+"/"+e.Manner)
+		rec.Seen("entry(kind,scheme,manner,secure-required)", fmt.Sprintf("%s|%s|%s|%v", e.Kind, e.Scheme, e.Manner, c.Secure))
 	}
 	rec.Seen("list(length,failing-positions,forward,secure)", fmt.Sprintf("%d|%s|%s|%v", len(c.Entries), failMask(c), c.Forward, c.Secure))
 	rec.Seen("forward", c.Forward)
@@ -509,6 +537,14 @@ func runList(rec *vcommon.Rec, c *anyCase) (stalled bool) {
 				break
 			}
 			rec.Stat("bytes_verified", 6000)
+			if c.Secure && want != "FWD" && securedSessions >= 0 {
+				// "a handshake meeting the security requirement": the upstream that serves under --secure has a session
+				// that its server, too, holds to be secured (nothing sits between the two but byte relays)
+				rec.Stat("secure:served_connections_checked_against_the_servers_view", 1)
+				if securedSessions == 0 {
+					viol("secure:served-over-a-session-the-server-holds-unsecured:" + servedSpelling(c, r.By))
+				}
+			}
 			if want == "FWD" && len(trials) > 0 {
 				// decided by the client's own Connect calls on the listed upstreams; the endpoints' counters are
 				// reported with it (a stray datagram from elsewhere on the machine can move a udp counter)
@@ -546,6 +582,22 @@ func servedKind(c *anyCase, by string) string {
 	return "unknown"
 }
 
+// servedSpelling: kind of the serving entry and how its URL spells the scheme, e.g. "ws(ws://)".
+func servedSpelling(c *anyCase, by string) string {
+	var i int
+	if _, err := fmt.Sscanf(by, "E%d", &i); err == nil && i >= 0 && i < len(c.Entries) {
+		e := c.Entries[i]
+		sch := e.Scheme
+		if sch == "" {
+			if l := e2e.C16Spellings[e.Kind]; len(l) > 0 {
+				sch = l[0]
+			}
+		}
+		return e.Kind + "(" + sch + "://)"
+	}
+	return "unknown"
+}
+
 func failMask(c *anyCase) string {
 	b := make([]byte, len(c.Entries))
 	for i, e := range c.Entries {
@@ -571,10 +623,33 @@ func (c *cycle) next() entry {
 	return e
 }
 
+// listKinds: the upstream kinds of the list workload. "wss" is the web-socket endpoint behind a TLS listener
+// (written https:// or wss://); like tcp+tls it always has a certificate, so there is no "plain" wss server.
+var listKinds = append(append([]string{}, e2e.C16Kinds...), "wss")
+
+func alwaysTLS(kind string) bool { return kind == "tcp+tls" || kind == "wss" }
+
+// speller hands out the spellings of a kind's scheme in turn, separately for every (kind, manner): every
+// spelling meets every manner again and again. The default spelling is stored as "".
+type speller map[string]int
+
+func (sp speller) next(e entry) entry {
+	l := e2e.C16Spellings[e.Kind]
+	if len(l) < 2 {
+		return e
+	}
+	k := e.Kind + "/" + e.Manner
+	if x := l[sp[k]%len(l)]; x != l[0] {
+		e.Scheme = x
+	}
+	sp[k]++
+	return e
+}
+
 func pools(secure bool) (good, reached, unreached []entry) {
-	for _, k := range e2e.C16Kinds {
+	for _, k := range listKinds {
 		good = append(good, entry{Kind: k, Manner: "good"})
-		if !secure && k != "tcp+tls" {
+		if !secure && !alwaysTLS(k) {
 			good = append(good, entry{Kind: k, Manner: "plain"})
 		}
 		if k == "udp" {
@@ -582,15 +657,15 @@ func pools(secure bool) (good, reached, unreached []entry) {
 		} else {
 			reached = append(reached, entry{Kind: k, Manner: "refused"}, entry{Kind: k, Manner: "hs-400"}, entry{Kind: k, Manner: "hs-garbage"}, entry{Kind: k, Manner: "hs-close"})
 		}
-		if secure && k != "tcp+tls" {
+		if secure && !alwaysTLS(k) {
 			reached = append(reached, entry{Kind: k, Manner: "plain"})
 		}
 	}
 	unreached = append(unreached, reached...)
-	for _, k := range e2e.C16Kinds {
+	for _, k := range listKinds {
 		unreached = append(unreached, entry{Kind: k, Manner: "silent"})
 	}
-	unreached = append(unreached, entry{Kind: "udp", Manner: "refused"}, entry{Kind: "tcp+tls", Manner: "silent-inner"}, entry{Kind: "ws", Manner: "silent-inner"})
+	unreached = append(unreached, entry{Kind: "udp", Manner: "refused"}, entry{Kind: "tcp+tls", Manner: "silent-inner"}, entry{Kind: "ws", Manner: "silent-inner"}, entry{Kind: "wss", Manner: "silent-inner"})
 	unreached = append(unreached, halfSilent...)
 	return
 }
@@ -612,6 +687,7 @@ func listCases(rec *vcommon.Rec) []*anyCase {
 	sets := map[bool]*set{false: mk(false), true: mk(true)}
 	var out []*anyCase
 	n := 0
+	spell := speller{}
 	gen := func(length, mask int, forwards []string) {
 		n++
 		secure := n%2 == 0
@@ -627,11 +703,11 @@ func listCases(rec *vcommon.Rec) []*anyCase {
 		for i := 0; i < length; i++ {
 			switch {
 			case mask&(1<<uint(i)) == 0:
-				es = append(es, st.good.next())
+				es = append(es, spell.next(st.good.next()))
 			case i < firstGood:
-				es = append(es, st.reached.next())
+				es = append(es, spell.next(st.reached.next()))
 			default:
-				es = append(es, st.unreached.next())
+				es = append(es, spell.next(st.unreached.next()))
 			}
 		}
 		for _, fw := range forwards {
@@ -639,6 +715,7 @@ func listCases(rec *vcommon.Rec) []*anyCase {
 		}
 	}
 	all := []string{"none", "reachable", "refused"}
+	out = append(out, spellingCases(rec)...)
 	defer func() {
 		// every second list of two or more entries spells its hosts alternately by name and by address, and every real
 		// endpoint's certificate is valid for its own spelling only
@@ -676,6 +753,41 @@ func listCases(rec *vcommon.Rec) []*anyCase {
 	return out
 }
 
+// spellingCases: every way an upstream address of a kind can be written (http:// | ws://, https:// | wss://,
+// udp:// | udp4://) x the two behaviours that matter for the security requirement (a server that can secure
+// the session, a server that cannot) x --secure off / on, alone in the list and ahead of an upstream that does
+// meet the requirement. The reference model does not know spellings: a kind behaves the same however it is written.
+func spellingCases(rec *vcommon.Rec) []*anyCase {
+	var out []*anyCase
+	followers := []entry{{Kind: "tcp+tls", Manner: "good"}, {Kind: "tcp", Manner: "good"}, {Kind: "wss", Manner: "good", Scheme: "wss"},
+		{Kind: "ws", Manner: "good", Scheme: "ws"}, {Kind: "udp", Manner: "good", Scheme: "udp4"}, {Kind: "wss", Manner: "good"}}
+	k := 0
+	for _, kind := range listKinds {
+		sp := e2e.C16Spellings[kind]
+		if len(sp) < 2 {
+			continue
+		}
+		for i, scheme := range sp {
+			if i == 0 {
+				scheme = ""
+			}
+			for _, manner := range []string{"good", "plain"} {
+				if manner == "plain" && alwaysTLS(kind) {
+					continue
+				}
+				for _, secure := range []bool{false, true} {
+					x := entry{Kind: kind, Scheme: scheme, Manner: manner}
+					for _, es := range [][]entry{{x}, {x, followers[k%len(followers)]}} {
+						out = append(out, &anyCase{Part: "list", Entries: es, Forward: "none", Secure: secure, Seed: rec.Seed()*100000 + 40000 + int64(len(out))})
+					}
+					k++
+				}
+			}
+		}
+	}
+	return out
+}
+
 func silentCases(rec *vcommon.Rec) []*anyCase {
 	var out []*anyCase
 	add := func(secure bool, fw string, es ...entry) {
@@ -700,9 +812,14 @@ func silentCases(rec *vcommon.Rec) []*anyCase {
 	add(false, "refused", entry{Kind: "udp", Manner: "silent-after-200"}, entry{Kind: "tcp+tls", Manner: "good"})
 	add(false, "none", entry{Kind: "udp", Manner: "silent-in-starttls"}, entry{Kind: "tcp", Manner: "good"})
 	add(true, "none", entry{Kind: "tcp", Manner: "hs-close"}, entry{Kind: "tcp", Manner: "silent-in-starttls"}) // nobody good
+	// the web-socket endpoint behind TLS, silent before / after the TLS handshake; the other spellings of the schemes
+	add(true, "none", entry{Kind: "wss", Scheme: "wss", Manner: "silent"}, entry{Kind: "ws", Scheme: "ws", Manner: "good"})
+	add(false, "none", entry{Kind: "wss", Manner: "silent-inner"}, entry{Kind: "udp", Scheme: "udp4", Manner: "good"})
+	add(true, "none", entry{Kind: "ws", Scheme: "ws", Manner: "silent-after-200"}, entry{Kind: "wss", Manner: "good"})
 	if rec.Thorough() {
 		rng := vcommon.NewRand(rec.Seed(), "c16/silent")
-		sil := []entry{{Kind: "tcp", Manner: "silent"}, {Kind: "tcp+tls", Manner: "silent"}, {Kind: "tcp+tls", Manner: "silent-inner"}, {Kind: "ws", Manner: "silent"}, {Kind: "ws", Manner: "silent-inner"}, {Kind: "udp", Manner: "silent"}, {Kind: "udp", Manner: "refused"}}
+		sil := []entry{{Kind: "tcp", Manner: "silent"}, {Kind: "tcp+tls", Manner: "silent"}, {Kind: "tcp+tls", Manner: "silent-inner"}, {Kind: "ws", Manner: "silent"}, {Kind: "ws", Manner: "silent-inner"}, {Kind: "udp", Manner: "silent"}, {Kind: "udp", Manner: "refused"},
+			{Kind: "wss", Manner: "silent"}, {Kind: "wss", Scheme: "wss", Manner: "silent-inner"}, {Kind: "ws", Scheme: "ws", Manner: "silent"}, {Kind: "udp", Scheme: "udp4", Manner: "silent"}}
 		sil = append(sil, halfSilent...)
 		for i, x := range sil {
 			secure := i%2 == 0
@@ -726,7 +843,7 @@ func silentCases(rec *vcommon.Rec) []*anyCase {
 
 func runReuse(rec *vcommon.Rec, c *anyCase) (stalled bool) {
 	rec.Mark(c)
-	s, err := build([]entry{{Kind: c.Kind, Manner: "good"}}, "none", c.Secure)
+	s, err := build([]entry{{Kind: c.Kind, Scheme: c.Scheme, Manner: "good"}}, "none", c.Secure)
 	if err != nil {
 		rec.Inconclusive("fixture: "+err.Error(), c)
 		return false
@@ -796,7 +913,7 @@ func runReuse(rec *vcommon.Rec, c *anyCase) (stalled bool) {
 	obs := map[string]interface{}{"physical_connections_after_concurrent_wave": physWave1, "physical_connections_at_end": physEnd,
 		"logical_connections": c.M + 2, "not_served_correctly": bad, "outcomes": outcomes, "sessions_accepted_by_the_server": sessions,
 		"visits_of_the_locked_open_path": verifhook.Count("upstream.locked") - lockedBefore}
-	rec.Seen("reuse(kind,m,secure)", fmt.Sprintf("%s|%d|%v", c.Kind, c.M, c.Secure))
+	rec.Seen("reuse(kind,scheme,m,secure)", fmt.Sprintf("%s|%s|%d|%v", c.Kind, c.Scheme, c.M, c.Secure))
 	if inconcl > 0 {
 		rec.Case(c.key(), false)
 		rec.Inconclusive("busy / fixture problem during the concurrent opens", c)
@@ -831,7 +948,7 @@ func runReuse(rec *vcommon.Rec, c *anyCase) (stalled bool) {
 // its order again, so the next local connection is served by the FIRST upstream.
 func runComeback(rec *vcommon.Rec, c *anyCase) (stalled bool) {
 	rec.Mark(c)
-	s, err := build([]entry{{Kind: c.Kind, Manner: "good"}, {Kind: c.Kind, Manner: "good"}}, "none", c.Secure)
+	s, err := build([]entry{{Kind: c.Kind, Scheme: c.Scheme, Manner: "good"}, {Kind: c.Kind, Scheme: c.Scheme, Manner: "good"}}, "none", c.Secure)
 	if err != nil {
 		rec.Inconclusive("fixture: "+err.Error(), c)
 		return false
@@ -839,6 +956,7 @@ func runComeback(rec *vcommon.Rec, c *anyCase) (stalled bool) {
 	defer func() { c.hold(); s.close() }()
 	key := uint64(c.Seed) * 64
 	rec.Seen("loss(kind,how,when,secure)", fmt.Sprintf("%s|%s|%s|%v", c.Kind, c.How, c.When, c.Secure))
+	rec.Seen("loss(kind,scheme)", c.Kind+"|"+c.Scheme)
 	s.eps[0].StopServer()
 	s.eps[0].CutAll(true)
 	first := s.connect(key+1, 2000, stdWait, false)
@@ -894,7 +1012,7 @@ func runLoss(rec *vcommon.Rec, c *anyCase) (stalled bool) {
 		return runComeback(rec, c)
 	}
 	rec.Mark(c)
-	entries := []entry{{Kind: c.Kind, Manner: "good"}}
+	entries := []entry{{Kind: c.Kind, Scheme: c.Scheme, Manner: "good"}}
 	if c.How == "server-gone" {
 		entries = append(entries, entry{Kind: "tcp", Manner: "good"})
 	}
@@ -914,6 +1032,7 @@ func runLoss(rec *vcommon.Rec, c *anyCase) (stalled bool) {
 		how += "-while-idle"
 	}
 	rec.Seen("loss(kind,how,when,secure)", fmt.Sprintf("%s|%s|%s|%v", c.Kind, c.How, c.When, c.Secure))
+	rec.Seen("loss(kind,scheme)", c.Kind+"|"+c.Scheme)
 
 	// a session is up and has carried data
 	first := s.connect(key+1, 3000, stdWait, c.When == "mid-transfer")
@@ -1073,7 +1192,7 @@ func runLoss(rec *vcommon.Rec, c *anyCase) (stalled bool) {
 		}
 		if c.Hold > 0 && next.app != nil && next.tgt != nil {
 			// the new session must outlive whatever is left of the lost one (its timers run out within a minute)
-			physNew := ep.Physical()
+			physNew, callsNew := ep.Physical(), s.cl.Trace.Count()
 			time.Sleep(time.Duration(c.Hold) * time.Second)
 			f := e2e.Duplex(next.app, next.tgt, &e2e.Stream{Key: key*4 + 21, Len: 2000}, &e2e.Stream{Key: key*4 + 22, Len: 2000}, "c2t", "t2c", nil)
 			again := s.connect(key+5, 1000, stdWait, false)
@@ -1083,6 +1202,8 @@ func runLoss(rec *vcommon.Rec, c *anyCase) (stalled bool) {
 			}
 			obs["new_connection_after_the_hold"] = again.short()
 			obs["physical_connections_after_the_hold"] = ep.Physical()
+			obs["client_connect_calls_after_the_hold"] = s.cl.Trace.Trials()
+			obs["sessions_accepted_by_the_servers_since_the_loss"] = verifhook.Count("server.session") - sessionsBefore
 			switch {
 			case f != nil && f.Inconclusive:
 				rec.Inconclusive("hold: "+f.Kind, c)
@@ -1092,8 +1213,13 @@ func runLoss(rec *vcommon.Rec, c *anyCase) (stalled bool) {
 				rec.Inconclusive("hold: "+again.short(), c)
 			case again.Outcome != "served" || again.By != want || again.Data != nil:
 				rec.Violation(fmt.Sprintf("reconnect:new-session-does-not-survive-%ds:new-connection-fails", c.Hold), c, obs)
-			case ep.Physical() != physNew:
+			case ep.Physical() != physNew && s.cl.Trace.Count() != callsNew:
+				// the relay's count is the physical witness, the client's own Connect calls on its upstream corroborate it (a
+				// connection from elsewhere on the machine that strays into the relay's port is no session of this client)
 				rec.Violation(fmt.Sprintf("reconnect:new-session-does-not-survive-%ds:another-physical-session-was-needed", c.Hold), c, obs)
+			case ep.Physical() != physNew:
+				rec.Note("hold: the relay counted a connection although the client made no Connect call on its upstream (stray connection?)", obs)
+				rec.Stat("loss:new_session_alive_after_hold", 1)
 			default:
 				rec.Stat("loss:new_session_alive_after_hold", 1)
 			}
@@ -1269,14 +1395,15 @@ func b2i(b bool) int64 {
 
 func reuseCases(rec *vcommon.Rec) []*anyCase {
 	var out []*anyCase
-	for i, k := range e2e.C16Kinds {
+	spell := speller{}
+	for i, k := range listKinds {
 		for j, m := range []int{2, 8, 32} {
-			out = append(out, &anyCase{Part: "reuse", Kind: k, M: m, Secure: (i+j)%2 == 1 && rec.Thorough(), Seed: rec.Seed()*100000 + 60000 + int64(len(out))})
+			out = append(out, &anyCase{Part: "reuse", Kind: k, Scheme: spell.next(entry{Kind: k}).Scheme, M: m, Secure: (i+j)%2 == 1 && rec.Thorough(), Seed: rec.Seed()*100000 + 60000 + int64(len(out))})
 		}
 	}
 	if rec.Thorough() {
-		for _, k := range e2e.C16Kinds {
-			out = append(out, &anyCase{Part: "reuse", Kind: k, M: 32, Secure: true, Seed: rec.Seed()*100000 + 60000 + int64(len(out))})
+		for _, k := range listKinds {
+			out = append(out, &anyCase{Part: "reuse", Kind: k, Scheme: spell.next(entry{Kind: k}).Scheme, M: 32, Secure: true, Seed: rec.Seed()*100000 + 60000 + int64(len(out))})
 		}
 	}
 	return out
@@ -1284,9 +1411,11 @@ func reuseCases(rec *vcommon.Rec) []*anyCase {
 
 func lossCases(rec *vcommon.Rec) (fast, slow []*anyCase) {
 	n := 0
+	spell := speller{}
 	mk := func(kind, how, when string, secure bool) *anyCase {
 		n++
-		return &anyCase{Part: "loss", Kind: kind, How: how, When: when, Secure: secure, Seed: rec.Seed()*100000 + 70000 + int64(n)}
+		// the spellings of the kind's scheme take turns
+		return &anyCase{Part: "loss", Kind: kind, Scheme: spell.next(entry{Kind: kind}).Scheme, How: how, When: when, Secure: secure, Seed: rec.Seed()*100000 + 70000 + int64(n)}
 	}
 	secures := []bool{false}
 	if rec.Thorough() {
